@@ -344,6 +344,25 @@ def wide_operators(ctx, rng):
     return ops
 
 
+def composite_annotated(ctx, rng):
+    """the annotation sits on the COMPOSITE only (PSD(Kronecker(A, B, C)) with un-annotated factors, likewise BlockDiag,
+    KronSum, Sum): rules whose applicability looks at the factors' annotations are only reached this way; n ~ 1000-2000
+    so that a dense fallback (n^2 entries) is far above the bound while staying cheap"""
+    from cola.ops import Dense, Kronecker, KronSum, BlockDiag, Diagonal, Sum
+    PSD, SA = cola.PSD, cola.SelfAdjoint
+    u = lambda n: Dense(spd(rng, n))  # noqa   (positive definite payload, NO annotation)
+    s = ctx.rng.randint(0, 2)
+    out = {}
+    out["PSD(kron_u_12x11x10)"] = PSD(Kronecker(u(12), u(11), u(10 + s)))
+    out["PSD(kron_u_36x36)"] = PSD(Kronecker(u(36), u(36 + s)))
+    out["SA(kron_u_9x8x7x3)"] = SA(Kronecker(u(9), u(8), u(7), u(3)))
+    out["PSD(block_u_mult)"] = PSD(BlockDiag(u(6), u(4 + s), multiplicities=[150, 100]))
+    out["PSD(kronsum_u_10x11x9)"] = PSD(KronSum(u(10), u(11), u(9)))
+    K = Kronecker(u(30), u(40))
+    out["PSD(sum_u_kron_diag)"] = PSD(Sum(K, Diagonal(1. + rng.random(K.shape[0]))))
+    return out
+
+
 def psd_products(ctx, rng):
     """PSD-annotated products of structured factors (S K S with S diagonal, K Kronecker / BlockDiag), n ~ 3000-4000"""
     from cola.ops import Dense, Kronecker, BlockDiag, Diagonal
@@ -592,6 +611,45 @@ def run_cost(ctx, T, flags):
         # densification of the operator, and is outside this property
         add("inv(kron2,GMRES(max_iters=15))@b", K2, lambda: cola.inv(K2, LA.GMRES(max_iters=15)) @ one(K2), None)
         add("inv(block,GMRES(max_iters=15))@b", BD, lambda: cola.inv(BD, LA.GMRES(max_iters=15)) @ one(BD), None)
+    # --- annotation on the composite only: the decomposition entry points themselves (cholesky, plu, Cholesky()(K),
+    # LU()(K)) and every other function of the property's list, result-type clause included
+    comp = composite_annotated(ctx, np.random.default_rng(ctx.seed + 37))
+    for nm, A in comp.items():
+        kind = type(A).__name__.split("[")[0]
+        if kind in ("Kronecker", "BlockDiag"):
+            add(f"cholesky({nm})@b", A, lambda A=A: (lambda r: (r, r @ one(A)))(cholesky(A)), kind)
+            add(f"Cholesky()({nm})@b", A, lambda A=A: (lambda r: (r, r @ one(A)))(LA.Cholesky()(A)), kind)
+            add(f"plu({nm})", A, lambda A=A: plu(A)[1:], kind)
+            add(f"LU()({nm})", A, lambda A=A: LA.LU()(A)[1:], kind)
+            add(f"inv({nm})@b", A, lambda A=A: (lambda r: (r, r @ one(A)))(cola.inv(A)), kind)
+            add(f"inv({nm},LU())@b", A, lambda A=A: (lambda r: (r, r @ one(A)))(cola.inv(A, LA.LU())), kind)
+            add(f"solve({nm},b,Auto())", A, lambda A=A: cola.solve(A, one(A), Auto()), None)
+            add(f"logdet({nm})", A, lambda A=A: cola.logdet(A), None)
+            add(f"slogdet({nm},LU(),Exact())", A, lambda A=A: cola.slogdet(A, LA.LU(), LA.Exact()), None)
+            add(f"sqrt({nm})@b", A, lambda A=A: (lambda r: (r, r @ one(A)))(LA.sqrt(A)), kind)
+            add(f"pow({nm},-1.5,Eig())@b", A, lambda A=A: (lambda r: (r, r @ one(A)))(LA.pow(A, -1.5, LA.Eig())), kind)
+        if kind == "BlockDiag":
+            add(f"exp({nm})@b", A, lambda A=A: (lambda r: (r, r @ one(A)))(LA.exp(A)), kind)
+            add(f"log({nm},Eig())@b", A, lambda A=A: (lambda r: (r, r @ one(A)))(LA.log(A, LA.Eig())), kind)
+        if kind == "KronSum":
+            add(f"exp({nm},Auto())@b", A, lambda A=A: (lambda r: (r, r @ one(A)))(LA.exp(A, Auto())), "Kronecker")
+            add(f"exp({nm},Eig())@b", A, lambda A=A: (lambda r: (r, r @ one(A)))(LA.exp(A, LA.Eig())), "Kronecker")
+            if not flags["exp_kronsum_requires_alg"]:
+                add(f"exp({nm})@b", A, lambda A=A: (lambda r: (r, r @ one(A)))(LA.exp(A)), "Kronecker")
+        add(f"diag({nm})", A, lambda A=A: LA.diag(A), None)
+        add(f"trace({nm},Exact())", A, lambda A=A: LA.trace(A, LA.Exact()), None)
+    # --- exp of Kronecker sums with every explicit algorithm (n <= ~1000: the dense fallback is cheap to exhibit)
+    from cola.ops import KronSum as _KS, Dense as _D2
+    erng = np.random.default_rng(ctx.seed + 41)
+    KSs = {"kronsum_psd_10x9x8": _KS(*[cola.PSD(_D2(spd(erng, m_))) for m_ in (10, 9, 8)]),
+           "kronsum_psd_30x31": _KS(*[cola.PSD(_D2(spd(erng, m_))) for m_ in (30, 31)])}
+    for nm, A in KSs.items():
+        # (explicit Lanczos / Arnoldi objects are left to the selection correspondence: their own Krylov workspace, handed
+        # n/n_i columns per factor by the factor-wise product, is the requested algorithm's cost and not bounded here)
+        for an, mk in (("Eig()", LA.Eig), ("Eigh()", LA.Eigh), ("Auto()", LA.Auto)):
+            add(f"exp({nm},{an})@b", A, lambda A=A, mk=mk: (lambda r: (r, r @ one(A)))(LA.exp(A, mk())), "Kronecker")
+            if not flags["exp_kronsum_requires_alg"]:
+                add(f"exp({nm},alg={an})@b", A, lambda A=A, mk=mk: (lambda r: (r, r @ one(A)))(LA.exp(A, alg=mk())), "Kronecker")
     # --- every structural rule with each admissible python / numpy TYPE of its scalar arguments, at a size where the
     # generic fallback (dense eigendecomposition of the full matrix) is measurable: n = 1000, factors 10 x 10 x 10
     from cola.ops import Dense as _Dense, Kronecker as _Kron
@@ -706,6 +764,10 @@ def run_cost(ctx, T, flags):
             continue
         if want and not err:
             got_t = type(out[0] if isinstance(out, tuple) else out).__name__.split("[")[0]
+            if got_t != want and pe * 50 > n * n:
+                mism.append(dict(oracle_fail=True, what=f"result of a structural rule is a {got_t}, not a {want}, and an array of the order of the full matrix was allocated",
+                                 case=name, n=n, peak_bytes=int(peak), bound_bytes=int(pbound), selected_rule=sel))
+                continue
             if got_t != want:
                 mism.append(dict(oracle_fail=False, what=f"result of a structural rule is a {got_t}, not a {want} (the memory bound of the property is respected on this call)",
                                  case=name, n=n, peak_bytes=int(peak), bound_bytes=int(pbound), selected_rule=sel))
